@@ -98,6 +98,7 @@ class Contract:
     self.guarded = {}                  # state field -> ghost lock counter that must be held
     self.cls_param = None              # classmethod: name of the record class bound to `cls`
     self.modifies_self = []            # fields of `self` a method may change
+    self.at_return = None              # callable(ex, ctx): ghost code at a normal return
     self.may_raise_other = False       # callers must expect unlisted exceptions
 
   # -- builder API -----------------------------------------------------------
